@@ -224,6 +224,10 @@ func (g *FuncGen) execCall(instr ssa.Instruction, c *ssa.CallCommon, v ssa.Value
 		return
 	}
 	ct, sf := g.env.lookupContractFrom(callee, fnPkgPath(g.fn))
+	if ct != nil && ct.Opts["optin"] != "" && (g.c == nil || g.c.Opts[ct.Opts["optin"]] == "") {
+		// an opt-in library model (e.g. the lock model): used only by callers whose contract asks for it
+		ct = nil
+	}
 	if ct != nil {
 		var names []string
 		var ptypes []types.Type
